@@ -1,6 +1,7 @@
 //! C04, update stream: "writing a value affects no other field and no other row".
 //!
-//!   case id=<n> e=c04u tys=<I|F|B|S|X>,… nul=<0|1>,… via=<conn|svc>     entity T { f0: ty0 [nullable], f1: … }
+//!   case id=<n> e=c04u tys=<I|F|B|S|X>,… nul=<0|1>,… via=<conn|svc> [opt=<none|empty|nofts>] [idx=1] [ns=1]
+//!        entity T[()|(no_full_text_index)] { f0: ty0 [nullable], f1: … [, index(f0)] } (in namespace `app` with ns=1)
 //!   new v=<Val|->;<Val|->;…          creates the row (`-` = field omitted, nullable fields only)
 //!   upd set=<j>:<Val>;<j>:<Val>…     `mutate { T { id:$id fj:$pj … } }` (an empty set is an update of nothing)
 //! Observation of `new`/`upd`: st=ok row=<Value;Value;…> oth=<same|diff>  — every field of the row read back
@@ -16,6 +17,10 @@ pub struct UCase {
     pub tys: Vec<char>,
     pub nul: Vec<bool>,
     pub svc: bool,
+    /// entity options of the data model grammar: "" | "()" | "(no_full_text_index)" ; an index entry; a namespace
+    pub opt: String,
+    pub idx: bool,
+    pub ns: bool,
     db: Option<Backend>,
     id: Option<(Vec<u8>, String)>,
     digest: u64,
@@ -39,7 +44,23 @@ impl UCase {
         if tys.is_empty() || tys.len() != nul.len() || tys.iter().any(|t| ty_name(*t).is_none()) {
             return None;
         }
-        Some(UCase { tys, nul, svc: kv.get("via").map(|v| v == "svc").unwrap_or(false), db: None, id: None, digest: 0 })
+        let opt = match kv.get("opt").map(|s| s.as_str()).unwrap_or("none") {
+            "none" => "",
+            "empty" => "()",
+            "nofts" => "(no_full_text_index)",
+            _ => return None,
+        };
+        Some(UCase {
+            tys,
+            nul,
+            svc: kv.get("via").map(|v| v == "svc").unwrap_or(false),
+            opt: opt.to_string(),
+            idx: kv.get("idx").map(|v| v == "1").unwrap_or(false),
+            ns: kv.get("ns").map(|v| v == "1").unwrap_or(false),
+            db: None,
+            id: None,
+            digest: 0,
+        })
     }
 
     fn model(&self) -> String {
@@ -50,7 +71,19 @@ impl UCase {
             .enumerate()
             .map(|(j, (t, n))| format!("f{}: {}{}", j, ty_name(*t).unwrap(), if *n { " nullable" } else { "" }))
             .collect();
-        format!("{{ T {{ {} }} O {{ n: Integer }} }}", fs.join(", "))
+        format!(
+            "{}{{ T{} {{ {}{} }} O {{ n: Integer }} }}",
+            if self.ns { "app " } else { "" },
+            self.opt,
+            fs.join(", "),
+            if self.idx { ", index(f0)" } else { "" }
+        )
+    }
+    fn t(&self) -> &'static str {
+        if self.ns { "app.T" } else { "T" }
+    }
+    fn o(&self) -> &'static str {
+        if self.ns { "app.O" } else { "O" }
     }
 
     fn start(&mut self, scratch: &std::path::Path) -> Result<(), String> {
@@ -62,7 +95,7 @@ impl UCase {
         } else {
             Backend::Conn(Conn::new(&model).map_err(|e| format!("err:model:{}", e))?)
         };
-        let _ = db.mutate("mutate { O { n:1 } }", Parameters::new());
+        let _ = db.mutate(&format!("mutate {{ {} {{ n:1 }} }}", self.o()), Parameters::new());
         self.db = Some(db);
         Ok(())
     }
@@ -71,7 +104,7 @@ impl UCase {
     fn others(&self) -> u64 {
         let db = self.db.as_ref().unwrap();
         let fields: Vec<String> = (0..self.tys.len()).map(|j| format!("f{}", j)).collect();
-        let q = format!("query {{ T {{ id mdate {} }} O {{ id mdate n }} }}", fields.join(" "));
+        let q = format!("query {{ {} {{ id mdate {} }} {} {{ id mdate n }} }}", self.t(), fields.join(" "), self.o());
         let r = db.query(&q, Parameters::new());
         let skip = self.id.as_ref().map(|x| x.1.clone()).unwrap_or_default();
         let mut lines: Vec<String> = vec![];
@@ -108,9 +141,9 @@ impl UCase {
         let fields: Vec<String> = (0..self.tys.len()).map(|j| format!("f{}", j)).collect();
         let mut p = Parameters::new();
         p.add("id", id.clone()).unwrap();
-        let r = db.query(&format!("query {{ T(id = $id) {{ {} }} }}", fields.join(" ")), p);
+        let r = db.query(&format!("query {{ {}(id = $id) {{ {} }} }}", self.t(), fields.join(" ")), p);
         match r.result {
-            Ok(t) => match JParser::parse(&t).ok().and_then(|j| j.get("T").and_then(|x| x.arr().cloned())) {
+            Ok(t) => match JParser::parse(&t).ok().and_then(|j| j.get(self.t()).and_then(|x| x.arr().cloned())) {
                 Some(rows) if rows.len() == 1 => {
                     let mut out = vec![];
                     for (j, ty) in self.tys.iter().enumerate() {
@@ -175,11 +208,11 @@ pub fn step(c: &mut UCase, kind: &str, kv: &HashMap<String, String>, stats: &mut
                         parts.push(format!("f{}:$p{}", j, j));
                     }
                 }
-                last = c.db.as_ref().unwrap().mutate(&format!("mutate {{ T {{ {} }} }}", parts.join(" ")), p);
+                last = c.db.as_ref().unwrap().mutate(&format!("mutate {{ {} {{ {} }} }}", c.t(), parts.join(" ")), p);
             }
             match last {
                 Ok(r) => {
-                    let id = JParser::parse(&r).ok().and_then(|j| match j.get("T").and_then(|x| x.get("id")) {
+                    let id = JParser::parse(&r).ok().and_then(|j| match j.get(c.t()).and_then(|x| x.get("id")) {
                         Some(J::Str(s)) => Some(s.clone()),
                         _ => None,
                     });
@@ -216,7 +249,7 @@ pub fn step(c: &mut UCase, kind: &str, kv: &HashMap<String, String>, stats: &mut
                 v.add_to(&mut p, &format!("p{}", j));
                 parts.push(format!("f{}:$p{}", j, j));
             }
-            match c.db.as_ref().unwrap().mutate(&format!("mutate {{ T {{ {} }} }}", parts.join(" ")), p) {
+            match c.db.as_ref().unwrap().mutate(&format!("mutate {{ {} {{ {} }} }}", c.t(), parts.join(" ")), p) {
                 Ok(_) => {
                     let oth = if c.others() == c.digest { "same" } else { "diff" };
                     format!("st=ok row={} oth={}", c.read_row(), oth)
@@ -267,11 +300,14 @@ pub fn gen_cases(w: &mut impl Write, g: &mut Gen, first_id: usize, n: usize, n_s
         let svc = k >= n - n_svc;
         writeln!(
             w,
-            "case id={} e=c04u tys={} nul={} via={}",
+            "case id={} e=c04u tys={} nul={} via={} opt={} idx={} ns={}",
             first_id + k,
             tys.iter().map(|c| c.to_string()).collect::<Vec<_>>().join(","),
             nul.iter().map(|b| (*b as u8).to_string()).collect::<Vec<_>>().join(","),
-            if svc { "svc" } else { "conn" }
+            if svc { "svc" } else { "conn" },
+            ["none", "nofts", "empty", "nofts"][(k / 3) % 4],
+            g.chance(1, 4) as u8,
+            g.chance(1, 3) as u8
         )
         .unwrap();
         let val = |j: usize, g: &mut Gen| -> Val {
